@@ -332,5 +332,5 @@ RATE_LIMITS = [
 ]
 
 PARTS = [
-    Part("fit", check_fit, lambda tier: strat_fit(tier), quick=250, thorough=5000, shrink=False, min_per_shard=4, min_nontrivial_frac=0.3),
+    Part("fit", check_fit, lambda tier: strat_fit(tier), quick=250, thorough=5000, shrink=False, min_per_shard=4, min_nontrivial_frac=0.2),
 ]
